@@ -13,6 +13,9 @@ THEOREMS = [
     "VK.C10_recorded_genuine",
     "VK.C10_group_members_tied",
     "VK.C10_scored_tiebreak",
+    "VK.applyTransfers_sample_irrelevant",
+    "VK.stvStep_no_tiebreak",
+    "VK.C10_stv_no_tiebreak_deterministic",
 ]
 RULE = ("cases = deterministic configuration of a rule (STV / IRV / SequentialRCV with fractional or full transfer, "
         "Plurality, SNTV, Borda, TopTwo, Alaska, DominatingSets, CondoBorda, the six score rules) x tiebreak in {None, "
